@@ -193,7 +193,8 @@ func c15Check(c c15Case) error {
 	if !c.Tight {
 		capacity += 64
 	}
-	p := &emPair{em: asm.NewEmitter(make([]byte, capacity), true), m: asmcat.NewModel(capacity, false, true)}
+	buf := make([]byte, capacity)
+	p := &emPair{em: asm.NewEmitter(buf, true), m: asmcat.NewModel(capacity, false, true), target: buf}
 	orig := p.em
 	useClone := c.CloneTo > c.CloneFrom && c.CloneTo <= len(c.Ops)
 	join := func() error {
@@ -205,13 +206,14 @@ func c15Check(c c15Case) error {
 		if pan != nil {
 			return fmt.Errorf("Append of the clone failed: %v", pan)
 		}
-		p.em, p.lenBias = orig, 0
+		p.em, p.lenBias, p.target = orig, 0, buf
 		return nil
 	}
 	for i, o := range c.Ops {
 		if useClone && i == c.CloneFrom {
 			p.lenBias = orig.Len()
-			p.em = orig.Clone(make([]byte, capacity))
+			p.target = make([]byte, capacity)
+			p.em = orig.Clone(p.target)
 		}
 		if useClone && i == c.CloneTo {
 			if err := join(); err != nil {
@@ -266,7 +268,7 @@ func init() {
 
 func TestC15(t *testing.T) {
 	rig.Main(t, "C15", "rapid emitter histories with listing generation on (instructions, labels, label references, comments up to 300 printable characters, data blocks of "+
-		"0,1,2,15,16,17,31,32,33,47,48,49,64,65,80 bytes, optional base set first), buffer exactly as large as the program in a quarter of the cases, listed before and after Finalize: "+
+		"0,1,2,15,16,17,31,32,33,47,48,49,64,65,80 bytes, optional base set first; a quarter of the data blocks are handed over as a window of the target buffer itself that overlaps the destination), buffer exactly as large as the program in a quarter of the cases, listed before and after Finalize: "+
 		"the hex listing's 0x.., tokens left of any // must concatenate to Bytes(); the text listing is walked in lockstep with the model's line records (address and bytes of every "+
 		"instruction and db line, labels/comments/base directives where issued); both writers return nil and leave the program unchanged.  Non-trivial = the history has a data block longer "+
 		"than 16 bytes or a label reference; distinct = hash(case).",
@@ -275,6 +277,12 @@ func TestC15(t *testing.T) {
 			r.Rapid("rapid", rig.Pick(25000, 100000), func(t *rapid.T) {
 				c := c15Case{Tight: rapid.IntRange(0, 3).Draw(t, "tight") == 0, Finalize: rapid.Bool().Draw(t, "finalize")}
 				c.Ops = asmcat.GenHistory(t, asmcat.GenOpts{MaxOps: rig.Pick(30, 80), Labels: true, Data: true, Comments: true, LongComments: true, SetBase: true, Assume: true})
+				for i := range c.Ops {
+					if o := &c.Ops[i]; o.Kind == "data" && o.V >= 2 && rapid.IntRange(0, 3).Draw(t, "from-own-buffer") == 0 {
+						o.Alias = uint32(rapid.IntRange(1, int(o.V)-1).Draw(t, "alias-distance"))
+						ev.Class("data-block-emitted-from-an-overlapping-window-of-the-target-buffer")
+					}
+				}
 				if len(c.Ops) > 1 && rapid.IntRange(0, 3).Draw(t, "via-clone") == 0 {
 					c.CloneFrom = rapid.IntRange(0, len(c.Ops)-1).Draw(t, "clone-from")
 					c.CloneTo = rapid.IntRange(c.CloneFrom+1, len(c.Ops)).Draw(t, "clone-to")
